@@ -23,8 +23,9 @@ def run(chk):
         'hand out nodes only through wrap; for every function that takes '
         'temporary references, every path (if/else/early return/raise/try) '
         'is enumerated and TLC checks each taken reference is released. '
+        'Computed table: every C-level recursion reads and writes under ONE tag, no tag shared. '
         'distinct_nontrivial = distinct (wrapper, branch) + (function, path)')
-    data = dict(backends=[], paths=[], handles=[])
+    data = dict(backends=[], paths=[], handles=[], caches=[])
     nfun = 0
     for be in px.BACKENDS:
         data['backends'].append(px.extract_apply(be))
@@ -32,6 +33,7 @@ def run(chk):
         nfun += nf
         data['paths'] += ps
         data['handles'].append(px.extract_handles(be))
+        data['caches'] += px.extract_cache_tags(be)
     for b in data['backends']:
         b.pop('prelude', None)
     fn = os.path.join(chk.dir, 'traces', 'cb.json')
@@ -41,7 +43,10 @@ def run(chk):
     if not r['ok']:
         raise tlcrun.MachineryError('TLC failed on CBackends:\n' + r['out'][-3000:])
     nb = sum(len(b['branches']) for b in data['backends'])
-    chk.events = nb + len(data['paths']) + len(data['handles'])
+    chk.events = nb + len(data['paths']) + len(data['handles']) + len(data['caches'])
+    if len(data['caches']) < 4:
+        raise tlcrun.MachineryError('fewer than 4 computed-table users found in the wrappers: the reader lost them')
+    chk.extra['computed_table_users'] = [c['where'] for c in data['caches']]
     chk.traces = 0
     chk.fingerprints = {('branch', b['backend'], tuple(br['ops'])) for b in data['backends'] for br in b['branches']} \
         | {('path', p['where'], json.dumps(p['events'])) for p in data['paths']}
